@@ -2,6 +2,8 @@ import Driver.Common
 import Rpki.Model.XmlDoc
 import Rpki.Model.PubMsg
 import Rpki.Model.IdxMsg
+import Rpki.Model.ProvMsg
+import Driver.C14
 namespace Driver.C11
 open Driver Rpki.Xml Rpki.XmlDoc
 
@@ -145,10 +147,94 @@ def handleIdx (toks : List String) (impl : String) : Verdict :=
             else none)
         | _ => some "unreadable result" }
 
+
+/-! ### RFC 6492 messages (`prvx`) -/
+
+open Rpki.Chain in
+def parseBlks (shiftV4 : Bool) (s : String) : Option (List Blk) :=
+  if s = "-" then some [] else
+  (s.splitOn "/").mapM fun (b : String) =>
+    match b.splitOn "-" with
+    | [l, h] => match l.toNat?, h.toNat? with
+      | some l, some h => if shiftV4 then some ⟨l * 2 ^ 96, h * 2 ^ 96 + (2 ^ 96 - 1)⟩ else some ⟨l, h⟩
+      | _, _ => none
+    | _ => none
+
+def asSet (s : String) := (parseBlks false s).map (Rpki.Chain.fromIter 4294967295)
+def v4Set (s : String) := (parseBlks true s).map (Rpki.Chain.fromIter (2 ^ 128 - 1))
+def v6Set (s : String) := (parseBlks false s).map (Rpki.Chain.fromIter (2 ^ 128 - 1))
+
+def optSet (f : String → Option (List Rpki.Chain.Blk)) (s : String) : Option (Option (List Rpki.Chain.Blk)) :=
+  if s = "*" then some none else (f s).map some
+
+def parseLimit (a v4 v6 : String) : Option Rpki.ProvMsg.Limit := do
+  some ⟨← optSet asSet a, ← optSet v4Set v4, ← optSet v6Set v6⟩
+
+def parseIssued (s : String) : Option Rpki.ProvMsg.Issued :=
+  match s.splitOn "~" with
+  | [u, a, v4, v6, c] => do some ⟨← unhx u, ← parseLimit a v4 v6, ← unhx c⟩
+  | _ => none
+
+def parseClass (s : String) : Option Rpki.ProvMsg.Class :=
+  match s.splitOn "," with
+  | [name, url, a, v4, v6, na, issued, issuer] => do
+    let is ← if issued = "-" then some [] else (issued.splitOn "+").mapM parseIssued
+    let t ← na.toInt?.bind Driver.C14.civilOf
+    some ⟨← unhx name, ← unhx url, ⟨← asSet a, ← v4Set v4, ← v6Set v6⟩, t, is, ← unhx issuer⟩
+  | _ => none
+
+def errText (st : Nat) : Option String :=
+  [(1101, "already processing request"), (1102, "version number error"), (1103, "unrecognized request type"),
+   (1104, "request scheduled for processing"), (1201, "request - no such resource class"),
+   (1202, "request - no resources allocated in resource class"), (1203, "request - badly formed certificate request"),
+   (1204, "request - already used key in request"), (1301, "revoke - no such resource class"), (1302, "revoke - no such key"),
+   (2001, "Internal Server Error - Request not performed")].lookup st
+
+def parseProv (toks : List String) : Option Rpki.ProvMsg.Msg :=
+  match toks with
+  | s :: r :: kind :: rest => do
+    let s ← unhx s
+    let r ← unhx r
+    let p : Rpki.ProvMsg.Payload ← match kind, rest with
+      | "list", [] => some .list
+      | "listr", [cs] => (if cs = "-" then some [] else (cs.splitOn ";").mapM parseClass).map .listResponse
+      | "issuer", [c] => (parseClass c).map .issueResponse
+      | "issue", [q] => (match q.splitOn "," with
+          | [name, a, v4, v6, csr] => do some (.issue (← unhx name) (← parseLimit a v4 v6) (← unhx csr))
+          | _ => none)
+      | "revoke", [q] => (match q.splitOn "," with | [n, k] => do some (.revoke (← unhx n) (← unhx k)) | _ => none)
+      | "revoker", [q] => (match q.splitOn "," with | [n, k] => do some (.revokeResponse (← unhx n) (← unhx k)) | _ => none)
+      | "err", [st] => do
+          let st ← st.toNat?
+          let t ← errText st
+          some (.error st (some (Rpki.PubMsg.s t)))
+      | _, _ => none
+    some ⟨s, r, p⟩
+  | _ => none
+
+def handleProv (toks : List String) (impl : String) : Verdict :=
+  match parseProv toks with
+  | none => badOp "prvx args"
+  | some m =>
+    let doc := Rpki.ProvMsg.write m
+    { model := some s!"{hexN doc} same",
+      oracle :=
+        match impl.splitOn " " with
+        | [h, back] =>
+          (match hexB h with
+          | none => some "unreadable"
+          | some x =>
+            if x ≠ doc then some "the document written for an API-made provisioning message is not the RFC 6492 document for its fields (element or attribute names and order, namespace, version, resource-set text, time, Base64)"
+            else if back = "err" then some "the library rejects the RFC 6492 document it wrote for an API-made message"
+            else if back ≠ "same" then some "the written provisioning message parses back to an unequal message"
+            else none)
+        | _ => some "unreadable result" }
+
 def handle (toks : List String) (impl : String) : Verdict :=
   match toks with
   | "pubx" :: rest => handlePubx rest impl
   | "idx" :: rest => handleIdx rest impl
+  | "prvx" :: rest => handleProv rest impl
   | ["xml", kind, origin, _] =>
     if impl = "panic" then { oracle := some s!"the {kind} parser or writer panicked" }
     else if impl = "err" then
